@@ -501,6 +501,11 @@ fn generate_label_at_offset(
     // If the only time used with this label is the time of the previous instruction
     // (which is less than this instruction), put the label before the relative time increase.
     if prev_time < next_time && time_args.len() == 1 && time_args.iter().next().unwrap() == &prev_time {
+        // At the beginning of a script there is no previous instruction (prev_offset == next_offset);
+        // "label_0r" would collide with the 'r' label of the second instruction.
+        if prev_offset == next_offset {
+            return Label { label: ident!("label_{next_offset}"), time_label: prev_time };
+        }
         return Label { label: ident!("label_{prev_offset}r"), time_label: prev_time };
     }
     Label { label: ident!("label_{next_offset}"), time_label: next_time }
@@ -525,6 +530,9 @@ fn test_generate_label_at_offset() {
 
     // the case where an r label is created
     assert_eq!(check((100, 10), (116, 20), &set(&[Some(10)])), (label("label_100r", 10)));
+    // no previous instruction: must not share a name with the 'r' label of the second instruction
+    assert_eq!(check((0, 0), (0, 10), &set(&[Some(0)])), (label("label_0", 0)));
+    assert_eq!(check((0, 10), (16, 20), &set(&[Some(10)])), (label("label_0r", 10)));
 }
 
 fn extract_jump_args_by_signature(
